@@ -204,6 +204,58 @@ def build(ch, with_options=True):
     return d
 
 
+def build_deep(ch, with_options=True):
+    """beyond the small scope: 4 ... 16 levels of nested universes (each level a slab filled with the next
+    universe, flanked by two material cells), optionally shifted at every level, optionally reused by a second
+    level-0 container"""
+    d = HDeck('c05 deep nesting')
+    depth = ch.choose('levels', [4, 8, 11, 12, 16], free=True)
+    tr = ch.choose('level-transformation', ['none', 'shift', 'shift-number'], free=True)
+    reuse = ch.choose('second-container', [False, True], free=True)
+    opts = []
+    if with_options:
+        opts = ch.choose('options', [[], ['--max-inline-score', '0'], ['--always-inline-filling'],
+                                     ['--always-inline-filled'], ['--max-inline-score', '0', '--skip-deduplication']],
+                         free=True)
+    a = [8.0 - 0.45 * k for k in range(depth + 1)]
+    for k in range(depth + 1):
+        d.add_surface(10 * k + 1, 'px', [-a[k]])
+        d.add_surface(10 * k + 2, 'px', [a[k]])
+    d.add_surface(901, 'py', [-5.0]); d.add_surface(902, 'py', [5.0]); d.add_surface(903, 'py', [15.0])
+
+    def filltr(k):
+        if tr == 'none':
+            return None
+        m = refsem.Motion((0.1 if k % 2 else -0.1, 0.0, 0.25 if k % 3 == 0 else 0.0))
+        if tr == 'shift-number':
+            d.trcards[50 + k] = (m, False)
+            return Tr(m, 'number', 50 + k)
+        return Tr(m, 'inline3')
+    # level 0
+    box = ('*', ('*', 1, -2), ('*', 901, -902))
+    d.add_cell(HCell(10, box, fill=1, filltr=filltr(0)))
+    rest = ('^', 10)
+    if reuse:
+        box2 = ('*', ('*', 1, -2), ('*', 902, -903))
+        d.add_cell(HCell(11, box2, fill=1, filltr=Tr(refsem.Motion((0.0, 10.0, 0.0)), 'inline3')))
+        rest = ('*', ('^', 10), ('^', 11))
+    d.add_cell(HCell(19, rest, imp=0))
+    for k in range(1, depth + 1):
+        lo, hi = 10 * k + 1, 10 * k + 2
+        if k < depth:
+            d.add_cell(HCell(100 * k, ('*', lo, -hi), fill=k + 1, filltr=filltr(k), u=k))
+        else:
+            d.add_cell(HCell(100 * k, ('*', lo, -hi), mat=3, rho='-0.5', u=k))
+        d.add_cell(HCell(100 * k + 1, -lo, mat=1, rho='-2.7', u=k))
+        d.add_cell(HCell(100 * k + 2, hi, mat=2, rho='-1.0', u=k))
+    d.mats = {1: '13027 1', 2: '26056 1', 3: '1001 2 8016 1'}
+    d.options = list(opts)
+    d.trcl11 = 'none'
+    d.like12 = None
+    d.finish()
+    return d
+
+
 def ref_planes(d):
     """every reference plane in every frame it is used in (independent of the file)"""
     return d.all_ref_planes()
@@ -248,7 +300,8 @@ def check_state(scn, st, corrupt=None, result=None):
 
 
 def scenarios(tier):
-    return [Scn('trees', build, 4 if tier == 'quick' else 6, 6, 'all choices costed; deviation-bounded')]
+    return [Scn('trees', build, 4 if tier == 'quick' else 6, 6, 'all choices costed; deviation-bounded'),
+            Scn('deep', build_deep, None, None, '4 ... 16 levels of nested universes x options: complete product')]
 
 
 def canaries():
